@@ -103,6 +103,7 @@ class Tracer:
         self.term_kind = None
         self.timer_checks = 0
         self.sent_after_term = 0
+        self.undecrypted = 0
         self._orig = ep.call
         ep.call = self.call
 
@@ -395,7 +396,10 @@ class Tracer:
             for p in obs.by_datagram.get(r.index, []):
                 if p.type == "padding":
                     continue
-                names = set(p.frame_names()) if p.decrypted else {"UNDECRYPTED"}
+                if not p.decrypted:        # the observer has no key for it (e.g. Initial keys of a DCID a puppet made up)
+                    self.undecrypted += 1
+                    continue
+                names = set(p.frame_names())
                 if not names <= {"CONNECTION_CLOSE", "CONNECTION_CLOSE_APP", "PADDING"} or not names & {"CONNECTION_CLOSE", "CONNECTION_CLOSE_APP"}:
                     self.violation("closing datagram carries %s" % sorted(names), check="closing-datagram-content")
         closes = [r for r in self.pair.network.wire_log if r.sender == self.name and not r.injected and any(
@@ -839,7 +843,7 @@ def run(ctx):
     corpus = corr.load_corpus("C09", "timers")
     tm.run(corpus, "corpus")
     rng = ctx.rng
-    n = ctx.n(300, 4000)
+    n = ctx.n(500, 4000)
     cases = [gen_case(rng) for _ in range(n)]
     stats = {"scenarios": 0, "kinds": {}, "term_kinds": {}, "outcomes": {}, "api_calls_traced": 0, "timer_checks": 0, "model_ops": {},
              "anomaly_timer_in_past_runs": 0, "busy_loop_firings": 0, "tracing_stopped": {}, "skipped_actions": 0, "injected_close_started_closing": {}, "closing_datagrams_seen": 0,
